@@ -60,6 +60,7 @@ type Contract struct {
 	Except      []Expr // modifies * except ...
 	Afters      []*AfterHook
 	Hides       []string        // pure spec functions treated as uninterpreted (heap-parametric) within this function's VC
+	Assumes     []*Clause       // input invariants assumed at entry and NOT checked at call sites (listed as assumptions)
 	Options     map[string]bool // per-function encoding options (see CONTRACTS.md): namedjoins
 	ReadsClock  bool
 }
@@ -144,7 +145,7 @@ type Contracts struct {
 	overlay     map[string][]byte
 }
 
-var kwRe = regexp.MustCompile(`^(inventory|func|prop|requires|ensures|modifies|loop|site|trusted|inline|let|pure|axiom|lemma|invariant|nopanic|maypanic|finding|ispure|witness|uses|repinv|frozenclock|readsclock|rec|hides|ghost|after|option)\b`)
+var kwRe = regexp.MustCompile(`^(inventory|func|prop|requires|ensures|modifies|loop|site|trusted|inline|let|pure|axiom|lemma|invariant|nopanic|maypanic|finding|ispure|witness|uses|repinv|frozenclock|readsclock|rec|hides|ghost|after|option|assumes)\b`)
 
 func LoadContracts(p *Program) (*Contracts, error) {
 	cs := &Contracts{Fns: map[string]*Contract{}, Pures: map[string]*PureFn{}, RepInvs: map[string]*RepInv{}}
@@ -239,6 +240,15 @@ func (cs *Contracts) parseFile(path string, pkg *types.Package) error {
 			for _, x := range strings.FieldsFunc(rest, func(r rune) bool { return r == ',' || r == ' ' }) {
 				cur.Props = append(cur.Props, x)
 			}
+		case "assumes":
+			if cur == nil {
+				return fail(rc, "assumes outside func")
+			}
+			c, err := mkClause(rc, rest)
+			if err != nil {
+				return err
+			}
+			cur.Assumes = append(cur.Assumes, c)
 		case "requires", "ensures":
 			if cur == nil {
 				return fail(rc, "%s outside func", kw)
